@@ -76,7 +76,9 @@ pub fn install_adversary(f: extern "C" fn(), budget: usize) {
     ADV_BUDGET.store(budget, SeqCst);
 }
 
-/// Wait for this thread's turn in the schedule.
+/// Wait for this thread's turn in the schedule. All the gate's own atomics are Relaxed on purpose: they
+/// order the steps in real time without adding happens-before edges between the threads, so a run under
+/// Miri still sees exactly the synchronisation of the code under test.
 pub fn gate_enter() {
     let id = my_id();
     if id < 0 {
@@ -96,16 +98,16 @@ pub fn gate_enter() {
         }
         return;
     }
-    if FREE_RUN.load(SeqCst) {
+    if FREE_RUN.load(Relaxed) {
         return;
     }
     let sched = &replay().schedule;
     let start = Instant::now();
     loop {
-        let p = POS.load(SeqCst);
+        let p = POS.load(Relaxed);
         if p >= sched.len() {
             // schedule exhausted: the rest runs freely
-            FREE_RUN.store(true, SeqCst);
+            FREE_RUN.store(true, Relaxed);
             return;
         }
         if sched[p] == id {
@@ -123,7 +125,7 @@ pub fn gate_enter() {
 pub fn gate_exit() {
     let was = GATED.try_with(|g| g.replace(false)).unwrap_or(false);
     if was {
-        POS.fetch_add(1, SeqCst);
+        POS.fetch_add(1, Relaxed);
     }
 }
 
